@@ -56,13 +56,13 @@ type Ent struct {
 }
 
 type Case struct {
-	Mode     string   `json:"mode"`   // build writer lossless
-	Fmt      string   `json:"fmt"`    // gzip zstd ext
-	Chunk    int      `json:"chunk"`  // ChunkSize (0 = default 4 MiB)
+	Mode     string   `json:"mode"`  // build writer lossless
+	Fmt      string   `json:"fmt"`   // gzip zstd ext
+	Chunk    int      `json:"chunk"` // ChunkSize (0 = default 4 MiB)
 	MinChunk int      `json:"minchunk"`
-	Level    int      `json:"level"`  // gzip level
+	Level    int      `json:"level"`   // gzip level
 	Workers  int      `json:"workers"` // Build: WithParallelism (0 = GOMAXPROCS)
-	InComp   string   `json:"incomp"` // none gzip zstd
+	InComp   string   `json:"incomp"`  // none gzip zstd
 	Prio     []string `json:"prio,omitempty"`
 	Allow    bool     `json:"allow,omitempty"`
 	Trail    int      `json:"trail,omitempty"` // extra zero bytes after the end-of-archive marker of the input
@@ -255,7 +255,9 @@ func (t *traceComp) FooterSize() int64                         { return t.d.Foot
 func (t *traceComp) ParseFooter(p []byte) (int64, int64, int64, error) {
 	return t.d.ParseFooter(p)
 }
-func (t *traceComp) ParseTOC(r io.Reader) (*estargz.JTOC, digest.Digest, error) { return t.d.ParseTOC(r) }
+func (t *traceComp) ParseTOC(r io.Reader) (*estargz.JTOC, digest.Digest, error) {
+	return t.d.ParseTOC(r)
+}
 
 type zstdCompression struct {
 	*zstdchunked.Compressor
@@ -794,6 +796,48 @@ func exec(c Case) (o outcome) {
 		panic("generator produced an unreadable tar: " + err.Error())
 	}
 	seq, prioNotFound := processed(c, inView)
+	{
+		type grp struct {
+			n     int
+			raws  map[string]bool
+			types map[byte]bool
+		}
+		gs := map[string]*grp{}
+		for _, e := range inView {
+			cn := cleanName(e.name)
+			g := gs[cn]
+			if g == nil {
+				g = &grp{raws: map[string]bool{}, types: map[byte]bool{}}
+				gs[cn] = g
+			}
+			g.n++
+			g.raws[e.name] = true
+			g.types[e.typ] = true
+		}
+		resp, triple, mixed := false, false, false
+		for _, g := range gs {
+			if g.n >= 2 && len(g.raws) >= 2 {
+				resp = true
+				triple = triple || g.n >= 3
+				mixed = mixed || len(g.types) >= 2
+			}
+		}
+		if resp {
+			count("dup.respelled." + c.Mode)
+		}
+		if triple {
+			count("dup.respelled.triple")
+		}
+		if mixed {
+			count("dup.respelled.mixedtype")
+		}
+		for _, pn := range c.Prio {
+			if pn != cleanName(pn) {
+				count("prio.respelled")
+				break
+			}
+		}
+	}
 	var calls [][]byte
 	rgs := callRanges(c)
 	for _, rg := range rgs {
@@ -1350,6 +1394,28 @@ func decompressorFor(c Case, res result) estargz.Decompressor {
 // ---------------------------------------------------------------------------------------------
 // generator
 
+// spell returns one of the many spellings of the clean relative path p that estargz's cleanEntryName (and any
+// tar extractor) maps to the same file: leading "./", "/", "../", "//", doubled slashes, "/./" or "/x/../"
+// inside, and for directories an optional trailing slash.  Every occurrence of a path picks its spelling
+// independently, so duplicates are usually spelled differently.
+func spell(r *hx.Rng, p string, dir bool) string {
+	s := p
+	if strings.Contains(s, "/") && r.Chance(2, 5) {
+		parts := strings.Split(s, "/")
+		k := 1 + r.Intn(len(parts)-1)
+		sep := []string{"//", "/./", "/x/../", "///"}[r.Intn(4)]
+		s = strings.Join(parts[:k], "/") + sep + strings.Join(parts[k:], "/")
+	}
+	s = []string{"", "", "./", "/", "../", "//", "./../", "/./"}[r.Intn(8)] + s
+	if dir && r.Chance(2, 3) {
+		s += "/"
+	}
+	if cleanName(s) != p {
+		panic(fmt.Sprintf("generator: spelling %q of %q is not equivalent", s, p))
+	}
+	return s
+}
+
 func gen(r *hx.Rng) Case {
 	c := Case{}
 	c.Mode = []string{"build", "build", "writer", "lossless"}[r.Pick(4, 3, 4, 3)]
@@ -1374,10 +1440,10 @@ func gen(r *hx.Rng) Case {
 		cs = 700
 	}
 	n := r.Pick(1, 2, 3, 3, 3, 3, 2, 2, 2, 1, 1, 1, 1)
-	names := []string{"a", "b", "dir/", "dir/c", "dir/sub/d", "./e", "f.txt", "/g", "dir/../h", strings.Repeat("long/", 25) + "name", "a"}
-	var top []string
+	names := []string{"a", "b", "dir", "dir/c", "dir/sub/d", "e", "f.txt", "g", "h", "a/b.txt", strings.Repeat("long/", 25) + "name", "a"}
 	for i := 0; i < n; i++ {
 		e := Ent{Name: names[r.Intn(len(names))], Mode: []int64{0o644, 0o755, 0o600, 0o4755}[r.Intn(4)]}
+		plain := r.Bool() // keep the path as is for every type: duplicates of mixed types
 		if r.Chance(1, 2) {
 			e.UID, e.GID = r.Intn(3)*1000, r.Intn(2)*100
 			if r.Bool() {
@@ -1414,33 +1480,40 @@ func gen(r *hx.Rng) Case {
 			if e.Size > 30000 {
 				e.Size = 30000
 			}
-			if strings.HasSuffix(e.Name, "/") {
-				e.Name += "file"
-			}
 		case 1:
 			e.Type = "dir"
-			if !strings.HasSuffix(e.Name, "/") {
-				e.Name += "d/"
+			if !plain {
+				e.Name += "d"
 			}
 		case 2:
 			e.Type = "symlink"
 			e.Link = []string{"a", "../x", "/abs/target"}[r.Intn(3)]
-			e.Name = strings.TrimSuffix(e.Name, "/") + "s"
+			if !plain {
+				e.Name += "s"
+			}
 		case 3:
 			e.Type = "link"
 			e.Link = []string{"a", "b", "dir/c"}[r.Intn(3)]
-			e.Name = strings.TrimSuffix(e.Name, "/") + "l"
+			if !plain {
+				e.Name += "l"
+			}
 		case 4:
 			e.Type = "char"
 			e.Major, e.Minor = int64(r.Intn(5)), int64(r.Intn(300))
-			e.Name = strings.TrimSuffix(e.Name, "/") + "c"
+			if !plain {
+				e.Name += "c"
+			}
 		case 5:
 			e.Type = "block"
 			e.Major, e.Minor = int64(r.Intn(300)), int64(r.Intn(5))
-			e.Name = strings.TrimSuffix(e.Name, "/") + "b"
+			if !plain {
+				e.Name += "b"
+			}
 		case 6:
 			e.Type = "fifo"
-			e.Name = strings.TrimSuffix(e.Name, "/") + "p"
+			if !plain {
+				e.Name += "p"
+			}
 		}
 		if r.Chance(1, 6) {
 			e.Xattrs = map[string]string{"user.k": "v" + fmt.Sprint(r.Intn(9))}
@@ -1448,24 +1521,49 @@ func gen(r *hx.Rng) Case {
 				e.Xattrs["security.selinux"] = "system_u:object_r:x:s0"
 			}
 		}
-		if e.Type != "link" && !strings.Contains(strings.Trim(cleanName(e.Name), "/"), "/") {
-			top = append(top, e.Name)
-		}
+		e.Name = spell(r, e.Name, e.Type == "dir")
 		c.Ops = append(c.Ops, e)
+	}
+	// duplicates: 1 or 2 further occurrences of an existing path, each under its own spelling, same or another type
+	for rounds := r.Pick(5, 4, 1); rounds > 0 && len(c.Ops) > 0; rounds-- {
+		src := c.Ops[r.Intn(len(c.Ops))]
+		for k := r.Range(1, 2); k > 0; k-- {
+			d := src
+			d.Seed = r.U64()
+			switch r.Pick(6, 2, 1, 1) {
+			case 1:
+				d.Type, d.Link, d.Size = "reg", "", 1+r.Intn(2*cs)
+			case 2:
+				d.Type, d.Link, d.Size = "dir", "", 0
+			case 3:
+				d.Type, d.Link, d.Size = "symlink", "a", 0
+			default:
+				if d.Type == "reg" {
+					d.Size = r.Intn(2*cs + 1)
+				}
+			}
+			d.Name = spell(r, cleanName(src.Name), d.Type == "dir")
+			at := r.Intn(len(c.Ops) + 1)
+			c.Ops = append(c.Ops[:at], append([]Ent{d}, c.Ops[at:]...)...)
+		}
 	}
 	// already-eStargz input: landmark and TOC entries at arbitrary places
 	if r.Chance(1, 6) {
-		lm := Ent{Name: []string{prefetchLM, noPrefetchLM, "./" + noPrefetchLM}[r.Intn(3)], Type: "reg", Size: 1, Seed: 3, Mode: 0o644}
-		at := r.Intn(len(c.Ops) + 1)
-		c.Ops = append(c.Ops[:at], append([]Ent{lm}, c.Ops[at:]...)...)
+		for k := r.Range(1, 2); k > 0; k-- {
+			lm := Ent{Name: spell(r, []string{prefetchLM, noPrefetchLM}[r.Intn(2)], false), Type: "reg", Size: 1, Seed: 3, Mode: 0o644}
+			at := r.Intn(len(c.Ops) + 1)
+			c.Ops = append(c.Ops[:at], append([]Ent{lm}, c.Ops[at:]...)...)
+		}
 	}
 	if r.Chance(1, 7) {
-		te := Ent{Name: []string{tocName, "./" + tocName}[r.Intn(2)], Type: "reg", Size: 20 + r.Intn(2000), Seed: 4, Mode: 0o644}
-		at := len(c.Ops)
-		if r.Chance(1, 3) {
-			at = r.Intn(len(c.Ops) + 1)
+		for k := r.Pick(3, 1) + 1; k > 0; k-- {
+			te := Ent{Name: spell(r, tocName, false), Type: "reg", Size: 20 + r.Intn(2000), Seed: 4, Mode: 0o644}
+			at := len(c.Ops)
+			if r.Chance(1, 3) {
+				at = r.Intn(len(c.Ops) + 1)
+			}
+			c.Ops = append(c.Ops[:at], append([]Ent{te}, c.Ops[at:]...)...)
 		}
-		c.Ops = append(c.Ops[:at], append([]Ent{te}, c.Ops[at:]...)...)
 	}
 	if r.Chance(1, 30) {
 		at := r.Intn(len(c.Ops) + 1)
@@ -1477,10 +1575,27 @@ func gen(r *hx.Rng) Case {
 			c.Split = append(c.Split, r.Range(c.Split[0]+1, len(c.Ops)-1))
 		}
 	}
-	if c.Mode == "build" && len(top) > 0 && r.Chance(1, 3) {
+	var top []string
+	{
+		last := map[string]string{}
+		var order []string
+		for _, e := range c.Ops {
+			cn := cleanName(e.Name)
+			if _, ok := last[cn]; !ok {
+				order = append(order, cn)
+			}
+			last[cn] = e.Type
+		}
+		for _, cn := range order {
+			if cn != "" && !strings.Contains(cn, "/") && last[cn] != "link" && last[cn] != "xglobal" && cn != tocName && cn != prefetchLM && cn != noPrefetchLM {
+				top = append(top, cn)
+			}
+		}
+	}
+	if c.Mode == "build" && len(top) > 0 && r.Chance(2, 5) {
 		k := r.Range(1, 2)
 		for i := 0; i < k; i++ {
-			c.Prio = append(c.Prio, top[r.Intn(len(top))])
+			c.Prio = append(c.Prio, spell(r, top[r.Intn(len(top))], r.Chance(1, 4)))
 		}
 		if r.Chance(1, 5) {
 			c.Prio = append(c.Prio, "missing-file")
@@ -1521,6 +1636,14 @@ func main() {
 		{Mode: "build", Fmt: "zstd", Chunk: 100, Workers: 8, InComp: "zstd", Ops: []Ent{reg("a", 1), reg("b", 1), reg("c", 1), reg(tocName, 50), reg(noPrefetchLM, 1), reg("d", 1000)}},
 		{Mode: "lossless", Fmt: "gzip", Chunk: 100, Level: 1, InComp: "none", Ops: []Ent{reg("a", 10), reg(tocName, 5)}},
 		{Mode: "build", Fmt: "ext", Chunk: 100, Level: 1, Workers: 2, InComp: "none", Ops: []Ent{}},
+		// the same path under different spellings: the LAST occurrence (by cleaned name) must be the only survivor in Build
+		{Mode: "build", Fmt: "gzip", Chunk: 100, Level: 1, Workers: 3, InComp: "none", Ops: []Ent{reg("a/b.txt", 150), reg("c", 300), reg("./a/b.txt", 20), reg("d", 1), reg("/a/b.txt", 333)}},
+		{Mode: "build", Fmt: "zstd", Chunk: 64, Workers: 1, InComp: "none", Ops: []Ent{{Name: "d/", Type: "dir", Mode: 0o755}, reg("a//x", 70), {Name: "s", Type: "symlink", Link: "a"},
+			{Name: "./d", Type: "dir", Mode: 0o700}, reg("a/./x", 5), reg("/s", 9), reg("../a/x", 129), {Name: "//d/", Type: "dir", Mode: 0o711}}},
+		{Mode: "build", Fmt: "ext", Chunk: 512, Level: 1, Workers: 4, InComp: "gzip", Prio: []string{"./p", "../q/"}, Ops: []Ent{reg("p", 600), reg("q", 10), reg("./"+noPrefetchLM, 1),
+			reg("/p", 30), reg("//"+tocName, 40), reg("r", 1500), reg("./q", 513), reg("../"+tocName, 50), reg("/"+prefetchLM, 1)}},
+		{Mode: "build", Fmt: "gzip", Chunk: 1000, MinChunk: 2000, Level: 1, Workers: 2, InComp: "none", Ops: []Ent{reg("dir/sub/d", 1200), reg("dir//sub/d", 10), reg("dir/sub/./d", 2100), reg("e", 5)}},
+		{Mode: "writer", Fmt: "gzip", Chunk: 100, Level: 1, InComp: "none", Ops: []Ent{reg("a", 10), reg("./a", 120), reg("/a", 0)}},
 		// two AppendTar calls sharing one compression stream (C03-fix-1)
 		{Mode: "writer", Fmt: "gzip", MinChunk: 5000, Level: 1, InComp: "none", Split: []int{1}, Ops: []Ent{reg("a", 300), reg("b", 200)}},
 		{Mode: "writer", Fmt: "zstd", Chunk: 100, MinChunk: 300, InComp: "gzip", Split: []int{1, 2}, Ops: []Ent{reg("a", 250), reg("b", 200), {Name: "d/", Type: "dir", Mode: 0o755}, reg("c", 1)}},
